@@ -597,8 +597,10 @@ func openStore(dir string, options StoreOptions) (*Store, error) {
 
 		err = checkHeader(file)
 		if err != nil {
+			// For example, a newest file that a crash left without a
+			// complete header; fall back on the next older file.
 			file.Close()
-			return nil, err
+			continue
 		}
 
 		// Will recursively restore ChildFooters of childCollections
